@@ -50,11 +50,16 @@ pub fn dlat(odd: bool) -> f64 {
 pub fn encode(lat: f64, lon: f64, odd: bool) -> (u32, u32) {
     let i = if odd { 1.0 } else { 0.0 };
     let dl = dlat(odd);
-    let yz = (NB * pmod(lat, dl) / dl + 0.5).floor();
-    let rlat = dl * (yz / NB + (lat / dl).floor());
+    // zone index and fraction from the same quotient (fmod and floor(lat/dl) can disagree by an ulp
+    // exactly on a zone boundary)
+    let q = lat / dl;
+    let z = q.floor();
+    let yz = (NB * (q - z) + 0.5).floor();
+    let rlat = dl * (yz / NB + z);
     let nlv = f64::from(nl(rlat));
     let dlon = 360.0 / (nlv - i).max(1.0);
-    let xz = (NB * pmod(lon, dlon) / dlon + 0.5).floor();
+    let ql = lon / dlon;
+    let xz = (NB * (ql - ql.floor()) + 0.5).floor();
     ((yz as u64 % 131072) as u32, (xz as u64 % 131072) as u32)
 }
 
